@@ -138,6 +138,21 @@ type SetCase struct {
 	Second    bool          `json:"second_changed"`
 	SecondErr string        `json:"second_err,omitempty"`
 	Oracle    []OracleEntry `json:"oracle"`
+	// every fp.Rename request of the first fix, in order (iteration = number of ToInput calls so far)
+	Renames []RenameReq `json:"renames"`
+	// directory-package-mismatch configured with exclude-test-suffix: false
+	NoExclude bool `json:"no_exclude_test_suffix,omitempty"`
+	// wall time of this set in the harness (evidence only; no verdict depends on it)
+	Ms int64 `json:"ms"`
+}
+
+// RenameReq: one fp.Rename(from, to) as the file provider saw it
+type RenameReq struct {
+	Iter     int    `json:"iter"`
+	From     string `json:"from"`
+	To       string `json:"to"`
+	Conflict bool   `json:"conflict"`
+	Err      bool   `json:"err"` // failed for another reason than a conflict
 }
 
 const wsRoot = "/ws"
@@ -175,7 +190,17 @@ func copyMap(m map[string]string) map[string]string {
 	return o
 }
 
-func lintOnce(files map[string]string, rulesOn []string) ([]Viol, error) {
+// newLinter: the linter handed to the fixer (and used for re-linting); noExclude configures
+// directory-package-mismatch with exclude-test-suffix: false
+func newLinter(rulesOn []string, noExclude bool) linter.Linter {
+	l := linter.NewLinter()
+	if noExclude {
+		l = l.WithUserConfig(dpmUserConfig(false))
+	}
+	return l.WithDisableAll(true).WithEnabledRules(rulesOn...)
+}
+
+func lintOnce(files map[string]string, rulesOn []string, noExclude bool) ([]Viol, error) {
 	if len(files) == 0 {
 		return nil, nil
 	}
@@ -184,7 +209,7 @@ func lintOnce(files map[string]string, rulesOn []string) ([]Viol, error) {
 	if err != nil {
 		return nil, err
 	}
-	l := linter.NewLinter().WithDisableAll(true).WithEnabledRules(rulesOn...).WithInputModules(&in)
+	l := newLinter(rulesOn, noExclude).WithInputModules(&in)
 	rep, err := l.Lint(context.Background())
 	if err != nil {
 		return nil, err
@@ -202,12 +227,37 @@ func lintOnce(files map[string]string, rulesOn []string) ([]Viol, error) {
 
 type countingFP struct {
 	*fileprovider.InMemoryFileProvider
-	iters int
-	cap   int
-	snaps []map[string]string
+	iters   int
+	cap     int
+	snaps   []map[string]string
+	renames []RenameReq
 }
 
 var errIterCap = errors.New("verif: iteration cap reached")
+
+// renameCap bounds the Rename requests of one Fix: handleRename's candidate loop has no bound of its own and
+// does not look at the context, so a loop that never finds a free name is cut here (and reported as
+// non-termination). Far above what any generated file set needs (at most files x files requests).
+const renameCap = 400
+
+var errRenameCap = errors.New("verif: rename request cap reached")
+
+func (c *countingFP) Rename(from, to string) error {
+	if len(c.renames) >= renameCap {
+		return errRenameCap
+	}
+	err := c.InMemoryFileProvider.Rename(from, to)
+	r := RenameReq{Iter: c.iters, From: from, To: to}
+	if err != nil {
+		if errors.As(err, &fileprovider.RenameConflictError{}) {
+			r.Conflict = true
+		} else {
+			r.Err = true
+		}
+	}
+	c.renames = append(c.renames, r)
+	return err
+}
 
 func (c *countingFP) all() map[string]string {
 	o := map[string]string{}
@@ -231,18 +281,19 @@ func (c *countingFP) ToInput(vm map[string]ast.RegoVersion) (rules.Input, error)
 type fixOut struct {
 	final     map[string]string
 	snaps     []map[string]string
+	renames   []RenameReq
 	iters     int
 	errClass  string
 	errMsg    string
 	conflicts bool
 }
 
-func runFix(files map[string]string, rulesOn []string, mode string, capIters int, deadline time.Duration) fixOut {
+func runFix(files map[string]string, rulesOn []string, mode string, capIters int, deadline time.Duration, noExclude bool) fixOut {
 	mem := fileprovider.NewInMemoryFileProvider(copyMap(files))
 	cfp := &countingFP{InMemoryFileProvider: mem, cap: capIters}
 	ctx, cancel := context.WithTimeout(context.Background(), deadline)
 	defer cancel()
-	l := linter.NewLinter().WithDisableAll(true).WithEnabledRules(rulesOn...)
+	l := newLinter(rulesOn, noExclude)
 	f := fixer.NewFixer()
 	f.RegisterFixes(fixes.NewDefaultFixes()...)
 	f.RegisterRoots(wsRoot)
@@ -275,12 +326,14 @@ func runFix(files map[string]string, rulesOn []string, mode string, capIters int
 		o.iters = cfp.iters
 		return o
 	}
-	o.final, o.snaps, o.iters = cfp.all(), cfp.snaps, cfp.iters
+	o.final, o.snaps, o.iters, o.renames = cfp.all(), cfp.snaps, cfp.iters, cfp.renames
 	if err != nil {
 		m := err.Error()
 		switch {
 		case strings.Contains(m, "iteration cap reached"):
 			o.errClass = "itercap"
+		case strings.Contains(m, "rename request cap reached"):
+			o.errClass = "renamecap"
 		case errors.Is(err, context.DeadlineExceeded) || strings.Contains(m, "deadline"):
 			o.errClass = "deadline"
 		case strings.Contains(m, "panic:"):
@@ -309,8 +362,16 @@ func defaultConfig() *config.Config {
 
 var defCfg = defaultConfig()
 
+var noExcludeCfg = func() *config.Config {
+	c, err := linter.NewLinter().WithUserConfig(dpmUserConfig(false)).GetConfig()
+	if err != nil {
+		return nil
+	}
+	return c
+}()
+
 // the real Fmt / DirectoryPackageMismatch fixes tabulated for the model (they are oracles there)
-func oracleFor(rule, file, content string, seen map[string]bool, out *[]OracleEntry) {
+func oracleFor(rule, file, content string, noExclude bool, seen map[string]bool, out *[]OracleEntry) {
 	key := rule + "\x00" + file + "\x00" + content
 	if seen[key] {
 		return
@@ -320,6 +381,9 @@ func oracleFor(rule, file, content string, seen map[string]bool, out *[]OracleEn
 	ver := rules.RegoVersionFromVersionsMap(vmapAbs(), file, ast.RegoUndefined)
 	fc := &fixes.FixCandidate{Filename: file, Contents: content, RegoVersion: ver}
 	opts := &fixes.RuntimeOptions{BaseDir: wsRoot, Config: defCfg}
+	if noExclude {
+		opts.Config = noExcludeCfg
+	}
 	var fx fixes.Fix
 	switch rule {
 	case "fmt":
@@ -352,7 +416,7 @@ func oracleFor(rule, file, content string, seen map[string]bool, out *[]OracleEn
 	*out = append(*out, e)
 	if e.Changed && rule != "dpm" {
 		// the formatter may be applied again to its own output within the same iteration
-		oracleFor(rule, file, unb64(e.Out), seen, out)
+		oracleFor(rule, file, unb64(e.Out), noExclude, seen, out)
 	}
 }
 
@@ -365,24 +429,43 @@ func short(title string) string {
 	return title
 }
 
-func runSet(id int, src string, files map[string]string, rs []string, mode string) SetCase {
-	c := SetCase{Kind: "set", ID: id, Src: src, Files: toFiles(files), Rules: rs, Mode: mode}
+func runSet(id int, src string, files map[string]string, rs []string, mode string, noExclude bool) SetCase {
+	c := SetCase{Kind: "set", ID: id, Src: src, Files: toFiles(files), Rules: rs, Mode: mode, NoExclude: noExclude}
 	var long []string
 	for _, r := range rs {
 		long = append(long, ruleNames[r])
 	}
-	if _, err := lintOnce(files, long); err != nil {
+	// one lint per distinct state of the files: the first snapshot is the input, the last one the result
+	type lintRes struct {
+		vs  []Viol
+		err error
+	}
+	memo := map[string]lintRes{}
+	lintMemo := func(fs map[string]string) ([]Viol, error) {
+		kb, _ := json.Marshal(fs)
+		if r, ok := memo[string(kb)]; ok {
+			return append([]Viol{}, r.vs...), r.err
+		}
+		vs, err := lintOnce(fs, long, noExclude)
+		memo[string(kb)] = lintRes{vs, err}
+		return append([]Viol{}, vs...), err
+	}
+	if _, err := lintMemo(files); err != nil {
 		c.ErrMsg = "lint: " + trunc(err.Error())
 		return c
 	}
 	c.Lintable = true
-	o := runFix(files, long, mode, 30, 240*time.Second)
+	o := runFix(files, long, mode, 30, 240*time.Second, noExclude)
 	c.Err, c.ErrMsg, c.Iters, c.Conflicts = o.errClass, o.errMsg, o.iters, o.conflicts
+	c.Renames = o.renames
+	if len(c.Renames) > 60 {
+		c.Renames = c.Renames[:60] // a loop that was cut: the first requests show what it does
+	}
 	c.Final = toFiles(o.final)
 	seen := map[string]bool{}
 	for _, s := range o.snaps {
 		st := Step{Files: toFiles(s)}
-		vs, err := lintOnce(s, long)
+		vs, err := lintMemo(s)
 		if err != nil {
 			st.LintErr = trunc(err.Error())
 		}
@@ -390,7 +473,7 @@ func runSet(id int, src string, files map[string]string, rs []string, mode strin
 		for _, v := range vs {
 			switch sh := short(v.Title); sh {
 			case "fmt", "v1", "dpm":
-				oracleFor(sh, v.File, s[v.File], seen, &c.Oracle)
+				oracleFor(sh, v.File, s[v.File], noExclude, seen, &c.Oracle)
 			}
 		}
 		c.Trace = append(c.Trace, st)
@@ -399,13 +482,13 @@ func runSet(id int, src string, files map[string]string, rs []string, mode strin
 		}
 	}
 	if o.errClass == "" {
-		rv, err := lintOnce(o.final, long)
+		rv, err := lintMemo(o.final)
 		if err != nil {
 			c.RelintErr = trunc(err.Error())
 		}
 		markFallbacks(o.final, rv)
 		c.Relint = rv
-		o2 := runFix(o.final, long, mode, 30, 240*time.Second)
+		o2 := runFix(o.final, long, mode, 30, 240*time.Second, noExclude)
 		if o2.errClass != "" {
 			c.SecondErr = o2.errClass
 		}
@@ -564,18 +647,20 @@ func (g *gen) subset() []string {
 }
 
 type corpusCase struct {
-	Name  string            `json:"name"`
-	Files map[string]string `json:"files"`
-	Rules []string          `json:"rules"`
-	Mode  string            `json:"mode"`
+	Name      string            `json:"name"`
+	Files     map[string]string `json:"files"`
+	Rules     []string          `json:"rules"`
+	Mode      string            `json:"mode"`
+	NoExclude bool              `json:"no_exclude_test_suffix"`
 }
 
 type job struct {
-	id    int
-	src   string
-	files map[string]string
-	rules []string
-	mode  string
+	id        int
+	src       string
+	files     map[string]string
+	rules     []string
+	mode      string
+	noExclude bool
 }
 
 func main() {
@@ -588,12 +673,13 @@ func main() {
 	tier := os.Args[2]
 	rng := hutil.NewRng(hutil.SeedFromEnv())
 	var jobs []job
-	add := func(src string, files map[string]string, rs []string, mode string) {
+	addx := func(src string, files map[string]string, rs []string, mode string, noExclude bool) {
 		if mode == "" {
 			mode = "error"
 		}
-		jobs = append(jobs, job{len(jobs), src, files, rs, mode})
+		jobs = append(jobs, job{len(jobs), src, files, rs, mode, noExclude})
 	}
+	add := func(src string, files map[string]string, rs []string, mode string) { addx(src, files, rs, mode, false) }
 	if len(os.Args) > 4 {
 		var rc struct {
 			Case SetCase `json:"case"`
@@ -602,10 +688,30 @@ func main() {
 		if err != nil {
 			panic(err)
 		}
+		var probe struct {
+			Case struct {
+				Kind string `json:"kind"`
+			} `json:"case"`
+		}
+		_ = json.Unmarshal(b, &probe)
+		if probe.Case.Kind == "dpm" {
+			var rd struct {
+				Case DpmCase `json:"case"`
+			}
+			if err := json.Unmarshal(b, &rd); err != nil {
+				panic(err)
+			}
+			de, err := newDpmEnv()
+			if err != nil {
+				panic(err)
+			}
+			out.Emit(de.run(0, rd.Case.Pkg, rd.Case.Exclude, rd.Case.V0))
+			return
+		}
 		if err := json.Unmarshal(b, &rc); err != nil {
 			panic(err)
 		}
-		out.Emit(runSet(0, "replay", fromFiles(rc.Case.Files), rc.Case.Rules, rc.Case.Mode))
+		out.Emit(runSet(0, "replay", fromFiles(rc.Case.Files), rc.Case.Rules, rc.Case.Mode, rc.Case.NoExclude))
 		return
 	}
 	// which fixes exist: the loop model has one constructor per fix (Model/FixLoop.v rule)
@@ -633,7 +739,7 @@ func main() {
 				os.Exit(2)
 			}
 			for _, c := range cs {
-				add("corpus:"+c.Name, c.Files, c.Rules, c.Mode)
+				addx("corpus:"+c.Name, c.Files, c.Rules, c.Mode, c.NoExclude)
 			}
 		}
 	}
@@ -649,9 +755,51 @@ func main() {
 		}
 		add("gen", g.fileSet(), g.subset(), mode)
 	}
+	// k-way collisions of moves (2-4 files of one base name and package, names of the candidate sequence
+	// already taken at the target), each under BOTH conflict modes; package paths with _test / quoted
+	// components in every position under both settings of exclude-test-suffix
+	nc, ni := 7, 6
+	if tier != "quick" {
+		nc, ni = 120, 100
+	}
+	g2 := &gen{hutil.NewRng(hutil.SeedFromEnv() ^ 0xc011)}
+	for i := 0; i < nc; i++ {
+		files, rs := g2.collideSet()
+		add("gen-collide", files, rs, "rename")
+		add("gen-collide", files, rs, "error")
+	}
+	for i := 0; i < ni; i++ {
+		files, rs, noEx := g2.innerTestSet()
+		mode := "error"
+		if g2.r.Below(3) == 0 {
+			mode = "rename"
+		}
+		addx("gen-pkgpath", files, rs, mode, noEx)
+	}
+	// function level of directory-package-mismatch: rule (Rego) vs fix (Go) on generated package paths
+	nd := 140
+	if tier != "quick" {
+		nd = 1200
+	}
+	de, err := newDpmEnv()
+	if err != nil {
+		panic(err)
+	}
+	type djob struct {
+		comps   []string
+		exclude bool
+		v0      bool
+	}
+	var djobs []djob
+	for i, comps := range dpmCases(hutil.NewRng(hutil.SeedFromEnv()^0xd9b4), nd) {
+		for _, ex := range []bool{true, false} {
+			djobs = append(djobs, djob{comps, ex, i%7 == 3})
+		}
+	}
+	dres := make([]DpmCase, len(djobs))
 	results := make([]SetCase, len(jobs))
 	var wg sync.WaitGroup
-	ch := make(chan job)
+	ch := make(chan func())
 	nw := runtime.NumCPU()
 	if nw > 16 {
 		nw = 16
@@ -660,17 +808,27 @@ func main() {
 		wg.Add(1)
 		go func() {
 			defer wg.Done()
-			for j := range ch {
-				results[j.id] = runSet(j.id, j.src, j.files, j.rules, j.mode)
+			for f := range ch {
+				f()
 			}
 		}()
 	}
 	for _, j := range jobs {
-		ch <- j
+		ch <- func() {
+			t0 := time.Now()
+			results[j.id] = runSet(j.id, j.src, j.files, j.rules, j.mode, j.noExclude)
+			results[j.id].Ms = time.Since(t0).Milliseconds()
+		}
+	}
+	for i, d := range djobs {
+		ch <- func() { dres[i] = de.run(i, d.comps, d.exclude, d.v0) }
 	}
 	close(ch)
 	wg.Wait()
 	for _, r := range results {
+		out.Emit(r)
+	}
+	for _, r := range dres {
 		out.Emit(r)
 	}
 }
